@@ -1,6 +1,7 @@
 import UralModel.Lemmas.Protocol
 import UralModel.Lemmas.PctCodec
 import UralModel.Model.Builders
+import UralModel.Lemmas.Builders
 import UralModel.Gen.ProtocolRe
 /-!
 # C20 — protocol helpers and URL builders compose predictably
@@ -147,12 +148,594 @@ example : ProtoArg "https://".toList := by decide
 example : ensure_protocol "//a.com".toList "https://".toList = "https://a.com".toList := by decide
 example : force_protocol "ftp://a.com/x".toList "https:".toList = "https://a.com/x".toList := by
   decide
-example : ensure_protocol "localhost//a".toList "http".toList = "localhost//a".toList := by decide
+example : ensure_protocol "localhost//a".toList "http".toList = "http://localhost//a".toList := by
+  decide
 example : protoLen ("aaaaaaaaaaaaaaaaaaaaaaaaaaaaaaaaaaaaaaaaaaaaaaaaaaaaaaaaaaaaaaaaaaaaaa://x".toList) = none := by
   decide
 
-/-- `unquote(quote(s)) == s` for every string (re-exported from `Lemmas/PctCodec`) -/
+/-! ## builders: `format_url` / `URLFormatter` -/
+
+/-- `unquote(quote(s)) == s` for every string (proved in `Lemmas/PctCodec`) -/
 theorem unquote_quote (s : Str) : unquote (quote s) = s :=
   Ural.Py.unquote_quote s _ safeOk_slash
+
+/-- what a retained argument must read back as: `none` for a bare key (`True`), otherwise
+`str(v)` (the harness hands `str(v)` over as `other s`) -/
+def wireVal : ArgVal → Option Str
+  | .pyTrue => none
+  | .other s => some s
+  | .pyNone => some "None".toList
+  | .pyFalse => some "False".toList
+
+/-- decoding of one query item: split at the first `=`, unquote both sides -/
+def decodeItem (it : Str) : Str × Option Str :=
+  (unquote (splitFirst it '=').1, (splitFirst it '=').2.map unquote)
+
+/-- decoding of a query string: split at `&`, decode every item -/
+def decodeQuery (q : Str) : List (Str × Option Str) := (splitOn q '&').map decodeItem
+
+theorem decodeItem_format (k : Str) (v : ArgVal) :
+    decodeItem (format_query_argument k v) = (k, wireVal v) := by
+  have hk : '=' ∉ quote k := quote_not_mem k '=' (by decide)
+  cases v <;>
+    simp only [format_query_argument, decodeItem, wireVal, splitFirst_notMem _ _ hk,
+      splitFirst_append_sep _ _ _ hk, unquote_quote, Option.map]
+
+theorem format_query_argument_no_amp (k : Str) (v : ArgVal) : '&' ∉ format_query_argument k v := by
+  have hk : '&' ∉ quote k := quote_not_mem k '&' (by decide)
+  have h2 : ∀ s, '&' ∉ quote k ++ '=' :: quote s := by
+    intro s hm
+    simp only [List.mem_append, List.mem_cons] at hm
+    rcases hm with hm | hm | hm
+    · exact hk hm
+    · exact absurd hm (by decide)
+    · exact quote_not_mem s '&' (by decide) hm
+  cases v <;> simp only [format_query_argument] <;> first | exact hk | exact h2 _
+
+/-- **the query decodes back to exactly the retained arguments**, in order: keys and values
+survive whatever characters they contain (`& = # ? % +`, space, non-ASCII), `True` comes
+back as a bare key and everything else as its `str()`. -/
+theorem format_query_roundtrip (items : List (Str × ArgVal)) (hne : items ≠ []) :
+    decodeQuery (queryString items) = items.map (fun kv => (kv.1, wireVal kv.2)) := by
+  unfold decodeQuery queryString
+  rw [splitOn_join _ '&' (by simpa using hne)]
+  · simp [List.map_map, Function.comp_def, decodeItem_format]
+  · intro it hit
+    simp only [List.mem_map] at hit
+    obtain ⟨kv, _, rfl⟩ := hit
+    exact format_query_argument_no_amp _ _
+
+/-- base, path and extension: what precedes the query -/
+def urlPrefix (base : Str) (path : Option PathArg) (ext : Option Str) : Str :=
+  addExt (joinPath base path) ext
+
+/-- the shape of every `format_url` result: prefix, then `?query` iff an argument is
+retained, then `#fragment` iff one is given -/
+theorem format_url_shape (base : Str) (path : Option PathArg) (args : Option Args)
+    (fragment ext : Option Str) :
+    format_url base path args fragment ext =
+      urlPrefix base path ext
+      ++ (if retainedArgs args = [] then [] else '?' :: queryString (retainedArgs args))
+      ++ (match fragment with | none => [] | some f => '#' :: lstripChars f ['#']) := by
+  unfold format_url addFragment addArgs urlPrefix
+  cases hr : retainedArgs args <;> cases fragment <;> simp
+
+/-- **no dangling `?`**: when no argument is retained (no `args`, an empty dict/list, only
+`None`/`False` values) nothing at all is inserted between path and fragment -/
+theorem format_no_dangling_qmark (base : Str) (path : Option PathArg) (args : Option Args)
+    (fragment ext : Option Str) (h : retainedArgs args = []) :
+    format_url base path args fragment ext = format_url base path none fragment ext := by
+  rw [format_url_shape, format_url_shape, h]
+  rfl
+
+theorem queryString_no_hash (items : List (Str × ArgVal)) : '#' ∉ queryString items := by
+  unfold queryString
+  induction items with
+  | nil => simp [join]
+  | cons kv rest ih =>
+    have h1 : '#' ∉ format_query_argument kv.1 kv.2 := by
+      have hk : '#' ∉ quote kv.1 := quote_not_mem _ '#' (by decide)
+      have h2 : ∀ s, '#' ∉ quote kv.1 ++ '=' :: quote s := by
+        intro s hm
+        simp only [List.mem_append, List.mem_cons] at hm
+        rcases hm with hm | hm | hm
+        · exact hk hm
+        · exact absurd hm (by decide)
+        · exact quote_not_mem s '#' (by decide) hm
+      cases kv.2 <;> simp only [format_query_argument] <;> first | exact hk | exact h2 _
+    cases rest with
+    | nil => simpa [join] using h1
+    | cons kv2 rest =>
+      simp only [List.map_cons] at ih ⊢
+      rw [join_cons_cons]
+      intro hm
+      simp only [List.mem_append, List.mem_singleton] at hm
+      rcases hm with (hm | hm) | hm
+      · exact h1 hm
+      · exact absurd hm (by decide)
+      · exact ih hm
+
+/-- **query and fragment as a URL parser sees them**: when base, path and extension contain
+neither `?` nor `#`, splitting the result at the first `#` and then at the first `?` (which
+is what `urlsplit` does, `Ural.urlsplit_query_fragment`) yields exactly the prefix, the
+formatted retained arguments — no query at all when none is retained — and the given
+fragment without its leading `#`s. -/
+theorem format_url_query_fragment (base : Str) (path : Option PathArg) (args : Option Args)
+    (fragment ext : Option Str)
+    (hq : '?' ∉ urlPrefix base path ext) (hf : '#' ∉ urlPrefix base path ext) :
+    splitQuery (format_url base path args fragment ext) =
+      (urlPrefix base path ext,
+       if retainedArgs args = [] then none else some (queryString (retainedArgs args))) ∧
+    (splitFragment (format_url base path args fragment ext)).2 =
+      fragment.map (fun f => lstripChars f ['#']) := by
+  rw [format_url_shape]
+  generalize hX : urlPrefix base path ext
+      ++ (if retainedArgs args = [] then [] else '?' :: queryString (retainedArgs args)) = X
+  have hXh : '#' ∉ X := by
+    rw [← hX]
+    intro hm
+    simp only [List.mem_append] at hm
+    rcases hm with hm | hm
+    · exact hf hm
+    · split at hm
+      · simp at hm
+      · simp only [List.mem_cons] at hm
+        rcases hm with hm | hm
+        · exact absurd hm (by decide)
+        · exact queryString_no_hash _ hm
+  have hXq : splitFirst X '?' = (urlPrefix base path ext,
+      if retainedArgs args = [] then none else some (queryString (retainedArgs args))) := by
+    rw [← hX]
+    split
+    · simp [splitFirst_notMem _ _ hq]
+    · exact splitFirst_append_sep _ _ _ hq
+  unfold splitQuery splitFragment
+  cases fragment with
+  | none => simp [splitFirst_notMem _ _ hXh, hXq]
+  | some f => simp [splitFirst_append_sep _ _ _ hXh, hXq]
+
+/-- **path join**: base and path are joined by exactly one `/` — the base loses its
+trailing slashes, the path (a string, or list items joined by `/`) its leading ones -/
+theorem format_path_join (base : Str) (p : PathArg) (args : Option Args)
+    (fragment ext : Option Str) :
+    let ps := match p with | .str s => s | .list items => join ['/'] items
+    (∃ rest, format_url base (some p) args fragment ext =
+        rstripChars base ['/'] ++ '/' :: lstripChars ps ['/'] ++ rest) ∧
+    (∀ pre, rstripChars base ['/'] ≠ pre ++ ['/']) ∧
+    (∀ t, lstripChars ps ['/'] ≠ '/' :: t) := by
+  intro ps
+  refine ⟨?_, ?_, ?_⟩
+  · rw [format_url_shape]
+    unfold urlPrefix addExt joinPath
+    cases p <;> cases ext <;> simp [ps]
+  · intro pre h
+    exact rstripChars_last _ _ _ _ h (by simp)
+  · intro t h
+    exact lstripChars_head _ _ _ _ h (by simp)
+
+/-- **fragment**: the given fragment, without its leading `#`s, is appended after a single
+`#` to what `format_url` returns without fragment -/
+theorem format_fragment (base : Str) (path : Option PathArg) (args : Option Args)
+    (f : Str) (ext : Option Str) :
+    format_url base path args (some f) ext =
+      format_url base path args none ext ++ '#' :: lstripChars f ['#'] ∧
+    (∀ t, lstripChars f ['#'] ≠ '#' :: t) := by
+  refine ⟨by simp [format_url, addFragment], ?_⟩
+  intro t h
+  exact lstripChars_head _ _ _ _ h (by simp)
+
+/-- membership in a merged argument dict: the call's items, and the formatter's items whose
+key the call does not redefine -/
+theorem mergeDicts_mem (self call : List (Str × ArgVal)) (kv : Str × ArgVal) :
+    kv ∈ mergeDicts self call ↔ kv ∈ call ∨ (kv ∈ self ∧ ∀ kv' ∈ call, kv'.1 ≠ kv.1) := by
+  unfold mergeDicts
+  simp only [List.mem_append, List.mem_filter, Bool.not_eq_true', List.any_eq_false, beq_iff_eq]
+  constructor
+  · rintro (⟨h1, h2⟩ | h)
+    · exact Or.inr ⟨h1, fun kv' hkv' => by simpa using h2 kv' hkv'⟩
+    · exact Or.inl h
+  · rintro (h | ⟨h1, h2⟩)
+    · exact Or.inr h
+    · exact Or.inl ⟨h1, fun kv' hkv' => by simpa using h2 kv' hkv'⟩
+
+/-- **`URLFormatter.format`** is `format_url` on the call's parameters, each falling back on
+the formatter's default when `None` (the extension has no default), with dict arguments
+merged (the call wins); merging anything with a list is refused -/
+theorem formatter_format_spec (self : Formatter) (base_url : Option Str) (path : Option PathArg)
+    (args : Option Args) (fragment ext : Option Str) (b : Str)
+    (hb : base_url.or self.base_url = some b) :
+    self.format base_url path args fragment ext =
+      (match args, self.args with
+       | none, sa => .ok (format_url b (path.or self.path) sa (fragment.or self.fragment) ext)
+       | some c, none => .ok (format_url b (path.or self.path) (some c) (fragment.or self.fragment) ext)
+       | some c, some s =>
+         if c.isDict && s.isDict then
+           .ok (format_url b (path.or self.path) (some ⟨true, mergeDicts s.items c.items⟩)
+             (fragment.or self.fragment) ext)
+         else .error .notImplemented) := by
+  unfold Formatter.format mergeArgs
+  rw [hb]
+  cases args with
+  | none => rfl
+  | some c =>
+    cases self.args with
+    | none => rfl
+    | some s => by_cases h : (c.isDict && s.isDict) = true <;> simp [h]
+
+/-! non-vacuity -/
+example : format_url "http://a.com/".toList (some (.str "/p".toList))
+    (some ⟨true, [("k".toList, .other "a&b".toList), ("n".toList, .pyNone)]⟩) (some "#f".toList) none
+    = "http://a.com/p?k=a%26b#f".toList := by decide
+example : format_url "http://a.com".toList none (some ⟨true, [("n".toList, .pyNone)]⟩) none none
+    = "http://a.com".toList := by decide
+
+/-! ## builders: `add_query_argument`, `get_query_argument`, `pathsplit` -/
+
+/-- the items of a query as `safe_qsl_iter` enumerates them; an absent or empty query has none -/
+def queryItems (q : Option Str) : List Str :=
+  match q with
+  | none => []
+  | some q => if q = [] then [] else splitOn q '&'
+
+/-- the item `add_query_argument(url, name, value)` appends (`quote=True`) -/
+def wireArg (name : Str) (value : Option Str) : Str :=
+  quote name ++ (match value with | none => [] | some v => '=' :: quote v)
+
+theorem wireArg_not_mem (name : Str) (value : Option Str) (c : Char) (hc : isDelim c = true)
+    (hne : c ≠ '=') : c ∉ wireArg name value := by
+  unfold wireArg
+  intro hm
+  simp only [List.mem_append] at hm
+  rcases hm with hm | hm
+  · exact quote_not_mem name c hc hm
+  · cases value with
+    | none => simp at hm
+    | some v =>
+      simp only [List.mem_cons] at hm
+      rcases hm with hm | hm
+      · exact hne hm
+      · exact quote_not_mem v c hc hm
+
+theorem wireArg_ne_nil (name : Str) (value : Option Str) (hn : name ≠ []) :
+    wireArg name value ≠ [] := by
+  unfold wireArg
+  intro h
+  exact quote_ne_nil name hn (List.append_eq_nil_iff.mp h).1
+
+theorem add_query_argument_eq (url name : Str) (value : Option Str) :
+    add_query_argument url name value true =
+      (splitQuery url).1 ++ '?' ::
+        (match (splitQuery url).2 with
+         | some q => if q = [] then wireArg name value else q ++ '&' :: wireArg name value
+         | none => wireArg name value)
+        ++ (match (splitFragment url).2 with | some f => '#' :: f | none => []) := by
+  unfold add_query_argument wireArg
+  cases value <;> cases (splitQuery url).2 <;> cases (splitFragment url).2 <;> simp
+
+/-- **`add_query_argument` appends exactly one item** (`quote=True`, non-empty name): what
+precedes the query is unchanged, the fragment — present or not — is unchanged, and the
+query items are the existing ones followed by the new one. -/
+theorem add_query_argument_appends_one (url name : Str) (value : Option Str) (hn : name ≠ []) :
+    (splitQuery (add_query_argument url name value true)).1 = (splitQuery url).1 ∧
+    (splitFragment (add_query_argument url name value true)).2 = (splitFragment url).2 ∧
+    queryItems (splitQuery (add_query_argument url name value true)).2 =
+      queryItems (splitQuery url).2 ++ [wireArg name value] := by
+  rw [add_query_argument_eq]
+  have hA := wireArg_ne_nil name value hn
+  have hAh : '#' ∉ wireArg name value := wireArg_not_mem _ _ '#' (by decide) (by decide)
+  have hAa : '&' ∉ wireArg name value := wireArg_not_mem _ _ '&' (by decide) (by decide)
+  -- facts on the pieces of `url`
+  have hf := splitFirst_spec url '#'
+  have hq := splitFirst_spec (splitFirst url '#').1 '?'
+  have hbase_q : '?' ∉ (splitQuery url).1 := hq.1
+  have hmain_h : '#' ∉ (splitFirst url '#').1 := hf.1
+  have hbase_h : '#' ∉ (splitQuery url).1 := by
+    intro hm; apply hmain_h
+    unfold splitQuery splitFragment at hm
+    cases hb : (splitFirst (splitFirst url '#').1 '?').2 with
+    | none => rw [hb] at hq; rw [hq.2]; exact hm
+    | some b => rw [hb] at hq; rw [hq.2]; simp [hm]
+  have hquery_h : ∀ q, (splitQuery url).2 = some q → '#' ∉ q := by
+    intro q hq2 hm; apply hmain_h
+    unfold splitQuery splitFragment at hq2
+    rw [hq2] at hq; rw [hq.2]; simp [hm]
+  generalize hQ : (match (splitQuery url).2 with
+      | some q => if q = [] then wireArg name value else q ++ '&' :: wireArg name value
+      | none => wireArg name value) = Q
+  have hQh : '#' ∉ Q := by
+    rw [← hQ]
+    cases h2 : (splitQuery url).2 with
+    | none => exact hAh
+    | some q =>
+      simp only []
+      split
+      · exact hAh
+      · intro hm
+        simp only [List.mem_append, List.mem_cons] at hm
+        rcases hm with hm | hm | hm
+        · exact hquery_h q h2 hm
+        · exact absurd hm (by decide)
+        · exact hAh hm
+  have hQne : Q ≠ [] := by
+    rw [← hQ]
+    cases h2 : (splitQuery url).2 with
+    | none => exact hA
+    | some q => simp only []; split <;> simp [hA]
+  have hQitems : queryItems (some Q) = queryItems (splitQuery url).2 ++ [wireArg name value] := by
+    simp only [queryItems, if_neg hQne]
+    rw [← hQ]
+    cases h2 : (splitQuery url).2 with
+    | none => simp [splitOn_notMem _ _ hAa]
+    | some q =>
+      simp only []
+      by_cases hqe : q = []
+      · simp [hqe, splitOn_notMem _ _ hAa]
+      · simp only [hqe, if_false]
+        rw [splitOn_append_sep, splitOn_notMem _ _ hAa]
+  have hmainh : '#' ∉ (splitQuery url).1 ++ '?' :: Q := by
+    intro hm
+    simp only [List.mem_append, List.mem_cons] at hm
+    rcases hm with hm | hm | hm
+    · exact hbase_h hm
+    · exact absurd hm (by decide)
+    · exact hQh hm
+  have hsplitF : splitFirst ((splitQuery url).1 ++ '?' :: Q ++
+      (match (splitFragment url).2 with | some f => '#' :: f | none => [])) '#' =
+      ((splitQuery url).1 ++ '?' :: Q, (splitFragment url).2) := by
+    cases (splitFragment url).2 with
+    | none => simp [splitFirst_notMem _ _ hmainh]
+    | some f =>
+      simp only []
+      rw [show (splitQuery url).1 ++ '?' :: Q ++ '#' :: f = ((splitQuery url).1 ++ '?' :: Q) ++ '#' :: f
+        by simp]
+      exact splitFirst_append_sep _ _ _ hmainh
+  have hsplitQ : splitFirst ((splitQuery url).1 ++ '?' :: Q) '?' = ((splitQuery url).1, some Q) :=
+    splitFirst_append_sep _ _ _ hbase_q
+  refine ⟨?_, ?_, ?_⟩
+  · show (splitFirst (splitFirst _ '#').1 '?').1 = _
+    rw [hsplitF, hsplitQ]
+  · show (splitFirst _ '#').2 = _
+    rw [hsplitF]
+  · show queryItems (splitFirst (splitFirst _ '#').1 '?').2 = _
+    rw [hsplitF, hsplitQ, hQitems]
+
+/-- what `get_query_argument` must return for the appended item: `True` for a bare key,
+else the (quoted) value -/
+def expectedGet (value : Option Str) : QArg :=
+  match value with
+  | none => .bare
+  | some v => .str (quote v)
+
+theorem qslItem_wireArg (name : Str) (value : Option Str) :
+    qslItem (wireArg name value) = (quote name, value.map quote) := by
+  have hk : '=' ∉ quote name := quote_not_mem name '=' (by decide)
+  unfold qslItem wireArg
+  cases value with
+  | none => simp [splitFirst_notMem _ _ hk]
+  | some v => simp [splitFirst_append_sep _ _ _ hk]
+
+theorem lookupQuery_append_new (items : List Str) (name : Str) (value : Option Str)
+    (hnew : ∀ it ∈ items, (qslItem it).1 ≠ quote name) :
+    lookupQuery (items ++ [wireArg name value]) (quote name) = expectedGet value := by
+  induction items with
+  | nil =>
+    simp only [List.nil_append, lookupQuery, qslItem_wireArg, if_true, expectedGet]
+    cases value <;> rfl
+  | cons it rest ih =>
+    have h1 : (qslItem it).1 ≠ quote name := hnew it (by simp)
+    simp only [List.cons_append, lookupQuery, if_neg h1]
+    exact ih (fun x hx => hnew x (by simp [hx]))
+
+/-- read-back at the level of the query items (no URL parser involved) -/
+theorem add_then_lookup (url name : Str) (value : Option Str) (hn : name ≠ [])
+    (hnew : ∀ it ∈ queryItems (splitQuery url).2, (qslItem it).1 ≠ quote name) :
+    lookupQuery (queryItems (splitQuery (add_query_argument url name value true)).2) (quote name)
+      = expectedGet value := by
+  rw [(add_query_argument_appends_one url name value hn).2.2]
+  exact lookupQuery_append_new _ _ _ hnew
+
+/-- every character of the result comes from the url, from the appended item, or is one of
+the three delimiters -/
+theorem add_query_argument_chars (url name : Str) (value : Option Str) :
+    ∀ c ∈ add_query_argument url name value true,
+      c ∈ url ∨ c ∈ wireArg name value ∨ c = '?' ∨ c = '&' ∨ c = '#' := by
+  intro c hc
+  rw [add_query_argument_eq] at hc
+  have hf := splitFirst_spec url '#'
+  have hq := splitFirst_spec (splitFirst url '#').1 '?'
+  have hmain : ∀ x ∈ (splitFirst url '#').1, x ∈ url := by
+    intro x hx
+    cases hb : (splitFirst url '#').2 with
+    | none => rw [hb] at hf; rw [hf.2]; exact hx
+    | some b => rw [hb] at hf; rw [hf.2]; simp [hx]
+  have hfrag : ∀ f, (splitFragment url).2 = some f → ∀ x ∈ f, x ∈ url := by
+    intro f hf2 x hx
+    unfold splitFragment at hf2
+    rw [hf2] at hf; rw [hf.2]; simp [hx]
+  have hbase : ∀ x ∈ (splitQuery url).1, x ∈ url := by
+    intro x hx
+    apply hmain
+    unfold splitQuery splitFragment at hx
+    cases hb : (splitFirst (splitFirst url '#').1 '?').2 with
+    | none => rw [hb] at hq; rw [hq.2]; exact hx
+    | some b => rw [hb] at hq; rw [hq.2]; simp [hx]
+  have hquery : ∀ q, (splitQuery url).2 = some q → ∀ x ∈ q, x ∈ url := by
+    intro q hq2 x hx
+    apply hmain
+    unfold splitQuery splitFragment at hq2
+    rw [hq2] at hq; rw [hq.2]; simp [hx]
+  simp only [List.mem_append, List.mem_cons] at hc
+  rcases hc with (hc | hc | hc) | hc
+  · exact Or.inl (hbase c hc)
+  · exact Or.inr (Or.inr (Or.inl hc))
+  · cases h2 : (splitQuery url).2 with
+    | none => rw [h2] at hc; exact Or.inr (Or.inl hc)
+    | some q =>
+      rw [h2] at hc
+      simp only [] at hc
+      split at hc
+      · exact Or.inr (Or.inl hc)
+      · simp only [List.mem_append, List.mem_cons] at hc
+        rcases hc with hc | hc | hc
+        · exact Or.inl (hquery q h2 c hc)
+        · exact Or.inr (Or.inr (Or.inr (Or.inl hc)))
+        · exact Or.inr (Or.inl hc)
+  · cases h2 : (splitFragment url).2 with
+    | none => rw [h2] at hc; simp at hc
+    | some f =>
+      rw [h2] at hc
+      simp only [List.mem_cons] at hc
+      rcases hc with hc | hc
+      · exact Or.inr (Or.inr (Or.inr (Or.inr hc)))
+      · exact Or.inl (hfrag f h2 c hc)
+
+theorem wireArg_no_unsafe (name : Str) (value : Option Str) :
+    ∀ c ∈ wireArg name value, isUnsafeUrlChar c = false := by
+  intro c hc
+  unfold wireArg at hc
+  simp only [List.mem_append] at hc
+  rcases hc with hc | hc
+  · exact quote_no_unsafe name c hc
+  · cases value with
+    | none => simp at hc
+    | some v =>
+      simp only [List.mem_cons] at hc
+      rcases hc with hc | hc
+      · rw [hc]; decide
+      · exact quote_no_unsafe v c hc
+
+/-- **`get_query_argument` reads the appended item back** (wire level: the key as quoted by
+`add_query_argument`, the value as quoted) when the key is new, through the real parsing
+path `safe_urlsplit` → `urlsplit` → query → `safe_qsl_iter`.  Hypotheses: the name is not
+empty, the url carries no TAB/CR/LF (`urlsplit` deletes them), no existing item has the same
+(quoted) key, and `urlsplit` does not raise on the result (malformed brackets). -/
+theorem add_then_get (url name : Str) (value : Option Str) (hn : name ≠ [])
+    (hclean : ∀ c ∈ url, isUnsafeUrlChar c = false)
+    (hnew : ∀ it ∈ queryItems (splitQuery url).2, (qslItem it).1 ≠ quote name)
+    (hok : safe_urlsplit (add_query_argument url name value true) ≠ none) :
+    get_query_argument (add_query_argument url name value true) (quote name)
+      = .ok (expectedGet value) := by
+  generalize hR : add_query_argument url name value true = R at hok
+  have hRun : ∀ c ∈ R, isUnsafeUrlChar c = false := by
+    intro c hc
+    rw [← hR] at hc
+    rcases add_query_argument_chars url name value c hc with h | h | h | h | h
+    · exact hclean c h
+    · exact wireArg_no_unsafe name value c h
+    · rw [h]; decide
+    · rw [h]; decide
+    · rw [h]; decide
+  -- the query of the result, as the plain split sees it
+  have happ := add_query_argument_appends_one url name value hn
+  have hlook := add_then_lookup url name value hn hnew
+  rw [hR] at happ hlook
+  obtain ⟨Q, hQ, hQne⟩ : ∃ Q, (splitQuery R).2 = some Q ∧ Q ≠ [] := by
+    cases h2 : (splitQuery R).2 with
+    | none => rw [h2] at happ; simp [queryItems] at happ
+    | some Q =>
+      refine ⟨Q, rfl, ?_⟩
+      intro he
+      rw [h2, he] at happ
+      simp [queryItems] at happ
+  have hplain : plainQuery R = Q := by unfold plainQuery; rw [hQ]; rfl
+  -- what urlsplit sees
+  unfold get_query_argument
+  cases hsp : safe_urlsplit R with
+  | none => exact absurd hsp hok
+  | some r =>
+    simp only []
+    have hrq : r.query = Q := by
+      unfold safe_urlsplit at hsp
+      have h1 := (urlsplit_query_fragment _ _ r hsp).1
+      rw [h1]
+      cases hpl : protoLen R with
+      | none =>
+        simp only [Option.isNone_none, if_true]
+        rw [cleanUrl_eq_self, plainQuery_http, hplain]
+        · intro c rest he
+          injection he with he _
+          rw [← he]; decide
+        · intro c hc
+          simp only [List.mem_append] at hc
+          rcases hc with hc | hc
+          · revert c; decide
+          · exact hRun c hc
+      | some n =>
+        simp only [Option.isNone_some, Bool.false_eq_true, if_false]
+        rw [cleanUrl_eq_self _ _ hRun, hplain]
+        intro c rest he
+        obtain ⟨c', rest', he', hc'⟩ := protoLen_some_head R n hpl
+        rw [he] at he'
+        injection he' with he' _
+        rw [he']; exact hc'
+    rw [hrq, if_neg hQne]
+    rw [hQ] at hlook
+    simpa [queryItems, hQne] using hlook
+
+/-- **`pathsplit`**: with `core` = the path without surrounding white space and without its
+leading and trailing slashes, the result joined by `/` is `core`, no segment contains a `/`,
+the result is empty exactly when `core` is (so `//` gives `[]` like `/`), and `core` indeed
+neither starts nor ends with a slash — i.e. the result is `core` split on `/`. -/
+theorem pathsplit_spec (urlpath : Str) :
+    let core := stripChars (strip urlpath) ['/']
+    join ['/'] (pathsplit urlpath) = core ∧
+    (∀ seg ∈ pathsplit urlpath, '/' ∉ seg) ∧
+    (pathsplit urlpath = [] ↔ core = []) ∧
+    (∀ t, core ≠ '/' :: t) ∧ (∀ pre, core ≠ pre ++ ['/']) := by
+  intro core
+  have hcore : core = stripChars (strip urlpath) ['/'] := rfl
+  refine ⟨?_, ?_, ?_, ?_, ?_⟩
+  · unfold pathsplit
+    simp only []
+    split
+    · rename_i h; rw [hcore, h]; rfl
+    · exact join_splitOn _ _
+  · unfold pathsplit
+    simp only []
+    split
+    · simp
+    · exact splitOn_no_sep _ _
+  · unfold pathsplit
+    simp only []
+    constructor
+    · intro h
+      split at h
+      · rename_i h'; exact h'
+      · exact absurd h (splitOn_ne_nil _ _)
+    · intro h; rw [hcore] at h; simp [h]
+  · intro t h
+    rw [hcore] at h
+    unfold stripChars at h
+    obtain ⟨suf, hsuf⟩ := rstripChars_prefix (lstripChars (strip urlpath) ['/']) ['/']
+    rw [h] at hsuf
+    exact lstripChars_head _ _ _ _ hsuf (by simp)
+  · intro pre h
+    rw [hcore] at h
+    unfold stripChars at h
+    exact rstripChars_last _ _ _ _ h (by simp)
+
+/-- **`urlpathsplit`** is `pathsplit` of the path `urlsplit` finds (after `http://` has been
+prepended to a scheme-less url), so `pathsplit_spec` applies to it -/
+theorem urlpathsplit_spec (url : Str) (l : List Str) (h : urlpathsplit url = .ok l) :
+    ∃ r, safe_urlsplit url = some r ∧ l = pathsplit r.path ∧
+      join ['/'] l = stripChars (strip r.path) ['/'] ∧ (∀ seg ∈ l, '/' ∉ seg) := by
+  unfold urlpathsplit at h
+  cases hs : safe_urlsplit url with
+  | none => rw [hs] at h; exact absurd h (by simp)
+  | some r =>
+    rw [hs] at h
+    injection h with h
+    refine ⟨r, rfl, h.symm, ?_, ?_⟩
+    · rw [← h]; exact (pathsplit_spec r.path).1
+    · rw [← h]; exact (pathsplit_spec r.path).2.1
+
+/-! non-vacuity -/
+example : add_query_argument "http://a.com/p?x=1#f#g".toList "k".toList (some "a&b".toList)
+    = "http://a.com/p?x=1&k=a%26b#f#g".toList := by decide
+example : get_query_argument "http://a.com/p?x=1&k=a%26b#f".toList "k".toList
+    = .ok (.str "a%26b".toList) := by rfl
+example : pathsplit "//".toList = [] ∧ pathsplit " /a//b/ ".toList = ["a".toList, [], "b".toList] := by
+  decide
+example : urlpathsplit "a.com/x/y/".toList = .ok ["x".toList, "y".toList] := by rfl
 
 end Ural.Props.C20
